@@ -21,7 +21,46 @@ func c09NumCases(env *core.Env) int {
 	return 2000
 }
 
+// twinTextWorld builds a world in which the same relative $ref text occurs in documents of two different directories
+// (each directory has its own other.json): the text designates a different document depending on where it is written.
+func twinTextWorld(idx int) *gen.World {
+	dirs := []string{"file:///w/a/s/", "file:///w/", "file:///w/b/", "http://h.example/d/"}
+	d2 := dirs[idx%len(dirs)]
+	text := []string{"other.json#/definitions/d0", "./other.json#/definitions/d0", "other.json#/definitions/d1"}[(idx/4)%3]
+	mk := func(tag string) map[string]interface{} {
+		return map[string]interface{}{"definitions": map[string]interface{}{
+			"d0": map[string]interface{}{"title": tag + ":d0", "type": "object"},
+			"d1": map[string]interface{}{"title": tag + ":d1", "properties": map[string]interface{}{"p": map[string]interface{}{"$ref": "#/definitions/d0"}}},
+		}}
+	}
+	holder := func() map[string]interface{} { return map[string]interface{}{"$ref": text} }
+	imp := d2 + "x.json"
+	rel := func(frag string) string { return gen.RefText(gen.RootURL, imp, nil, "abs") + frag }
+	root := map[string]interface{}{
+		"swagger": "2.0", "info": map[string]interface{}{"title": "t", "version": "1"},
+		"definitions": map[string]interface{}{"local": map[string]interface{}{"title": "root:local", "items": holder()}},
+		"parameters":  map[string]interface{}{"p0": map[string]interface{}{"$ref": rel("#/parameters/p0")}, "own": map[string]interface{}{"name": "own", "in": "body", "schema": holder()}},
+		"responses":   map[string]interface{}{"r0": map[string]interface{}{"description": "root:r0", "schema": holder()}, "imported": map[string]interface{}{"$ref": rel("#/responses/r0")}},
+		"paths": map[string]interface{}{"/a": map[string]interface{}{"$ref": rel("#/paths/~1a")},
+			"/b": map[string]interface{}{"get": map[string]interface{}{"responses": map[string]interface{}{"200": map[string]interface{}{"description": "root:/b", "schema": holder()}}}}},
+	}
+	x := map[string]interface{}{
+		"parameters": map[string]interface{}{"p0": map[string]interface{}{"name": "p", "in": "body", "description": "x:p0", "schema": holder()}},
+		"responses":  map[string]interface{}{"r0": map[string]interface{}{"description": "x:r0", "schema": map[string]interface{}{"allOf": []interface{}{holder(), map[string]interface{}{"$ref": "#/definitions/dx"}}}}},
+		"definitions": map[string]interface{}{"dx": map[string]interface{}{"title": "x:dx"}},
+		"paths": map[string]interface{}{"/a": map[string]interface{}{"x-mark": "x:/a", "parameters": []interface{}{map[string]interface{}{"name": "q", "in": "body", "schema": holder()}},
+			"post": map[string]interface{}{"responses": map[string]interface{}{"default": map[string]interface{}{"description": "x:/a", "schema": holder()}}}}},
+	}
+	return &gen.World{Root: gen.RootURL, Features: map[string]int{"twin-text-world": 1, "cross-document-ref": 1}, Slots: 9, Docs: map[string]interface{}{
+		gen.RootURL: root, "file:///w/a/other.json": mk("a-other"), imp: x, d2 + "other.json": mk("second-other")}}
+}
+
+const c09TwinWorlds = 48
+
 func c09World(env *core.Env, idx int) (*gen.World, bool) {
+	if idx < c09TwinWorlds {
+		return twinTextWorld(idx), idx%2 == 0
+	}
 	rng := core.Rng(env.Seed, "C09", idx)
 	o := gen.WorldOpts{}
 	o.NDocs = 2 + rng.Intn(4)
@@ -269,7 +308,7 @@ func init() {
 		Run:      c09Run,
 		Floors: func(env *core.Env) []string {
 			return []string{"schema-ref-holders-checked", "schema-refs-rewritten", "schema-refs-in-imported-elements", "positions-compared", "two-stage-compared", "world.acyclic", "world.cyclic",
-				"dir.same", "dir.sub", "dir.parent", "dir.cousin", "dir.http", "feat.chain-across-documents"}
+				"dir.same", "dir.sub", "dir.parent", "dir.cousin", "dir.http", "feat.chain-across-documents", "feat.twin-text-world"}
 		},
 		Assumptions: []string{"the two-stage comparison feeds the skip result back as the root document at the same location, with the same loader"},
 	})
